@@ -103,7 +103,7 @@ def expand_yyjjj(d, lo=1970):
 
 
 # ------------------------------------------------------- uamiv-family header
-_FILEHDR = '>iiifif'        # after name+note: itzon nspec ibdate btime iedate etime
+_FILEHDR = '>iiifif'    # after name+note: itzon nspec ibdate btime iedate etime
 _GRIDHDR = '>ffiffffiiiiifff'
 _GRIDKEYS = ['plon', 'plat', 'iutm', 'xorg', 'yorg', 'delx', 'dely', 'nx',
              'ny', 'nz', 'iproj', 'istag', 'tlat1', 'tlat2', 'rdum']
@@ -116,7 +116,7 @@ def _enc_headers(c):
     _need(c.get('nspec', nspec) == nspec, 'nspec %r != %d species',
           c.get('nspec'), nspec)
     r1 = chars4(c['name'], 10) + chars4(c['note'], 60) + struct.pack(
-        '>iiifif', c['itzon'], nspec, c['ibdate'], c['btime'], c['iedate'],
+        _FILEHDR, c['itzon'], nspec, c['ibdate'], c['btime'], c['iedate'],
         c['etime'])
     r2 = struct.pack(_GRIDHDR, *[c[k] for k in _GRIDKEYS])
     cell = c.get('cell', [1, 1, c['nx'], c['ny']])
@@ -133,7 +133,7 @@ def _dec_headers(recs, c):
     c['name'] = unchars4(r1[:40], 10, 'file name')
     c['note'] = unchars4(r1[40:280], 60, 'note')
     (c['itzon'], c['nspec'], c['ibdate'], c['btime'], c['iedate'],
-     c['etime']) = struct.unpack('>iiifif', r1[280:])
+     c['etime']) = struct.unpack(_FILEHDR, r1[280:])
     _need(len(r2) == 60, 'record 2 has %d bytes, expected 60', len(r2))
     for k, v in zip(_GRIDKEYS, struct.unpack(_GRIDHDR, r2)):
         c[k] = v
@@ -609,13 +609,6 @@ def decode_landuse(buf, nx, ny):
                   '%d bytes', i, len(recs[i]))
             c['extra'].append([None, recs[i]])
     return c
-
-
-def _enc_family(fmt):
-    def enc(c):
-        return encode_one3d(c)
-    enc.__name__ = 'encode_' + fmt
-    return enc
 
 
 ENCODE = {'uamiv': encode_uamiv, 'lateral_boundary': encode_lateral_boundary,
